@@ -19,8 +19,8 @@ RULE = (
 )
 BOUNDS = {"rows": "18-450", "classes": "3-5", "features": "1-3"}
 ASSUMPTIONS = ["the reference BinaryCarvers come from the same code base: this is a differential, one-vs-rest composition check"]
-BUDGET = {"quick": 320, "thorough": 4000}
-DEADLINE_S = {"quick": 220, "thorough": 2700}
+BUDGET = {"quick": 320, "thorough": 12000}
+DEADLINE_S = {"quick": 220, "thorough": 3300}
 
 
 def strategy(tier):
